@@ -240,6 +240,10 @@ Inductive step :=
 (* block generation: txs = the candidates generator.selectTransactionsByFee executed on one context (invalid ones
    skipped), txs2 = the selected ones executed again as a block whose Commit expects the root of the first context *)
 | SGen (height : N) (txs txs2 : list tx_obs) (selok : bool) (r : res) (rootref treeref : bool) (d : dump)
+(* a block executed through consensus' abi_caller (Before/AfterTransactionsExecute emit nb / na events, the block's
+   events are concatenated and renumbered), then committed; evs = the block's events as the engine stores them
+   (first topic: 202/203 = block-level default topics, 1000+k = id of the k-th transaction) *)
+| SCBlock (height : N) (nb na : nat) (txs : list tx) (evs : list ev_obs) (r : res) (rootref treeref : bool) (d : dump)
 | SRevert (height : N) (e : expect) (r : res) (rootref treeref : bool) (d : dump)
 | SInit (last : N) (wrong_root : bool) (r : res) (rootref treeref : bool) (d : dump).
 
@@ -323,6 +327,35 @@ Definition check_step (m : mstate) (st : step) : N * mstate :=
              | Some (m1, ok1), Some (m2, ok2) => ok1 && ok2 && store_eqb m1 m2 && store_eqb m2 (fst d) && store_eqb (fst d) m2
              | _, _ => true
              end), m')
+  | SCBlock height nb na txs evs r rootref treeref d =>
+      let prev := match nget (m_roots m) (height - 1) with Some x => x | None => [] end in
+      let hook (name topic : N) (k : nat) : list event :=
+        map (fun i => {| ev_module := 1; ev_name := name; ev_data := [N.of_nat i]; ev_topics := [topic];
+                         ev_height := height; ev_index := N.of_nat i |}) (seq 0 k) in
+      let fix go (c : cache) (v : vsnaps) (ts : list tx) (acc : list (list event)) (allok : bool) :=
+        match ts with
+        | [] => (c, rev acc, allok)
+        | t :: rest =>
+            let '(st', res, _) := execute_tx (a_state (m_db m)) {| x_cache := c; x_root := v; x_log := new_logger height |} t in
+            go (x_cache st') (x_root st') rest (events (x_log st') :: acc)
+               (allok && match res with XInvalid => false | _ => true end)
+        end in
+      let '(c, txevs, allok) := go [] no_snaps txs [] true in
+      let mevs := map (fun e => (ev_name e, ev_data e, ev_topics e, ev_index e, ev_height e, true))
+                      (block_events (hook 1 202 nb) txevs (hook 2 203 na)) in
+      let out := commit hash_i enc_i root_eqb_i tree_update_i tree_root_i (m_db m) c height prev None false in
+      let '(a', mr, newroot) := match out with
+                                | COk a' x => (a', ROk', x)
+                                | _ => (m_db m, ROther, bogus)
+                                end in
+      let committed := res_eqb r ROk' in
+      let m' := if committed
+                then {| m_db := a'; m_roots := (height, newroot) :: m_roots m; m_states := (height, fst d) :: m_states m;
+                        m_tip := height |}
+                else m in
+      (code (allok && evs_eqb mevs evs && res_eqb mr r && db_matches a' d)
+            ((* the block's events are numbered 0,1,2,... in the engine's list; the block is committed with the SMT root *)
+             consecutive evs 0 height && res_eqb r ROk' && rootref && treeref), m')
   | SRevert height e r rootref treeref d =>
       let cur := match nget (m_roots m) height with Some x => x | None => [] end in
       let prev := match nget (m_roots m) (height - 1) with Some x => x | None => [] end in
